@@ -63,7 +63,7 @@ func c07ReportFlags(cs *c07Case) []string {
 	f := []string{"-symbolize=none", "-nodecount=1000000", "-nodefraction=0", "-edgefraction=0",
 		"-sample_index=" + cs.Index, "-unit=" + c07DisplayUnit(c07TypeFam(cs.Index))}
 	switch cs.Gran {
-	case "lines", "files", "addresses":
+	case "lines", "files", "addresses", "filefunctions":
 		f = append(f, "-"+cs.Gran)
 	}
 	return f
@@ -167,11 +167,12 @@ type c07Top struct {
 	Rows  map[string]c07TopRow
 	Lines []string // from "Showing nodes" on, sorted
 	Bad   string
+	Dup   string // an entry name listed more than once (rows summed when sumDup)
 }
 
 var c07TotalRe = regexp.MustCompile(`of (\S+) total`)
 
-func c07ParseTop(out []byte) *c07Top {
+func c07ParseTop(out []byte, sumDup ...bool) *c07Top {
 	t := &c07Top{Rows: map[string]c07TopRow{}}
 	lines := strings.Split(string(out), "\n")
 	start := -1
@@ -217,9 +218,14 @@ func c07ParseTop(out []byte) *c07Top {
 			return t
 		}
 		name := strings.TrimSuffix(strings.TrimSuffix(strings.Join(f[5:], " "), " (inline)"), " (partial-inline)")
-		if _, dup := t.Rows[name]; dup {
-			t.Bad = "entry listed twice: " + name
-			return t
+		if old, dup := t.Rows[name]; dup {
+			if len(sumDup) == 0 || !sumDup[0] {
+				t.Bad = "entry listed twice: " + name
+				return t
+			}
+			// rows with the same name are taken together (their sum is again a figure of the report)
+			t.Dup = name
+			flat, cum = flat+old.Flat, cum+old.Cum
 		}
 		t.Rows[name] = c07TopRow{flat, cum, f[1], f[4]}
 	}
